@@ -204,3 +204,10 @@ Fixpoint validate_loop (E : excl) (insts : list inst) (rules : list rule) : outc
 (* SigmaValidator(vs, E).validate_rules(rules) on fresh instances *)
 Definition validate (E : excl) (vs : list vkind) (rules : list rule) : outcome (list issue) :=
   obind (validate_loop E (map (fun v => (v, s_init)) vs) rules) (fun x => Ok (fst x ++ finalize (snd x))).
+
+(* the same SigmaValidator object validates the collection a second time: the instances keep their
+   tables (finalize() does not reset them); result = issues of the first and of the second call *)
+Definition validate_twice (E : excl) (vs : list vkind) (rules : list rule) : outcome (list issue * list issue) :=
+  obind (validate_loop E (map (fun v => (v, s_init)) vs) rules) (fun x =>
+    obind (validate_loop E (snd x) rules) (fun y =>
+      Ok (fst x ++ finalize (snd x), fst y ++ finalize (snd y)))).
